@@ -8,9 +8,9 @@ namespace Rl2tp.C10
 open Spec
 
 /-- the data branch of the specification only ever answers with a data message -/
-theorem specData_is_data (w : UInt16) (s : Bytes) (m : Msg) (k : Nat) (h : Spec.decodeData w s = some (m, k)) :
+theorem specData_is_data (w : UInt16) (s : Bytes) (m : Msg) (k : Nat) (h : Spec.decodeDataM w s = some (m, k)) :
     ∃ d, m = .data d := by
-  unfold Spec.decodeData at h
+  unfold Spec.decodeDataM at h
   simp only [] at h
   generalize (if hasOffset w = true then (u16At s (dataNeed w - 2)).toNat else 0) = pad at h
   by_cases c1 : s.length < dataNeed w
@@ -30,9 +30,9 @@ theorem specData_is_data (w : UInt16) (s : Bytes) (m : Msg) (k : Nat) (h : Spec.
     · simp only [Option.some.injEq, Prod.mk.injEq] at h; exact ⟨_, h.1.symm⟩
 
 /-- the specification's answer is a control message only on the control branch -/
-theorem spec_control_inv (o : Opts) (b : Bytes) (c : Control) (n : Nat) (h : Spec.decode o b = some (.control c, n)) :
-    ∃ w k, Spec.decodeControl w o (b.drop 2) = some (.control c, k) := by
-  unfold Spec.decode at h
+theorem spec_control_inv (o : Opts) (b : Bytes) (c : Control) (n : Nat) (h : Spec.decodeM o b = some (.control c, n)) :
+    ∃ w k, Spec.decodeControlM w o (b.drop 2) = some (.control c, k) := by
+  unfold Spec.decodeM at h
   split at h
   · cases h
   simp only [] at h
@@ -42,14 +42,14 @@ theorem spec_control_inv (o : Opts) (b : Bytes) (c : Control) (n : Nat) (h : Spe
   · cases h
   by_cases hc : isControl (u16At b 0) = true
   · rw [if_pos hc] at h
-    cases hin : Spec.decodeControl (u16At b 0) o (b.drop 2) with
+    cases hin : Spec.decodeControlM (u16At b 0) o (b.drop 2) with
     | none => rw [hin] at h; cases h
     | some p =>
       rw [hin] at h
       simp only [Option.map, Option.some.injEq, Prod.mk.injEq] at h
       exact ⟨u16At b 0, p.2, by rw [hin, ← h.1]⟩
   · rw [if_neg hc] at h
-    cases hin : Spec.decodeData (u16At b 0) (b.drop 2) with
+    cases hin : Spec.decodeDataM (u16At b 0) (b.drop 2) with
     | none => rw [hin] at h; cases h
     | some p =>
       rw [hin] at h
@@ -80,9 +80,9 @@ theorem control_reencode_fixed (o : Opts) (b : Bytes) (c : Control) (r : Bytes)
   rw [e1, himg]
 
 /-- the specification's answer on the data branch -/
-theorem spec_data_inv (o : Opts) (b : Bytes) (d : Data) (n : Nat) (h : Spec.decode o b = some (.data d, n)) :
-    2 ≤ b.length ∧ isControl (u16At b 0) = false ∧ ∃ k, Spec.decodeData (u16At b 0) (b.drop 2) = some (.data d, k) := by
-  unfold Spec.decode at h
+theorem spec_data_inv (o : Opts) (b : Bytes) (d : Data) (n : Nat) (h : Spec.decodeM o b = some (.data d, n)) :
+    2 ≤ b.length ∧ isControl (u16At b 0) = false ∧ ∃ k, Spec.decodeDataM (u16At b 0) (b.drop 2) = some (.data d, k) := by
+  unfold Spec.decodeM at h
   split at h
   · cases h
   rename_i hlen
@@ -93,7 +93,7 @@ theorem spec_data_inv (o : Opts) (b : Bytes) (d : Data) (n : Nat) (h : Spec.deco
   · cases h
   by_cases hc : isControl (u16At b 0) = true
   · rw [if_pos hc] at h
-    cases hin : Spec.decodeControl (u16At b 0) o (b.drop 2) with
+    cases hin : Spec.decodeControlM (u16At b 0) o (b.drop 2) with
     | none => rw [hin] at h; cases h
     | some p =>
       exfalso
@@ -102,7 +102,7 @@ theorem spec_data_inv (o : Opts) (b : Bytes) (d : Data) (n : Nat) (h : Spec.deco
       simp only [Option.map, Option.some.injEq, Prod.mk.injEq] at h
       rw [hc'] at h; cases h.1
   · rw [if_neg hc] at h
-    cases hin : Spec.decodeData (u16At b 0) (b.drop 2) with
+    cases hin : Spec.decodeDataM (u16At b 0) (b.drop 2) with
     | none => rw [hin] at h; cases h
     | some p =>
       rw [hin] at h
@@ -111,10 +111,10 @@ theorem spec_data_inv (o : Opts) (b : Bytes) (d : Data) (n : Nat) (h : Spec.deco
 
 /-- what an accepted data message without an offset field looks like -/
 theorem specData_sound (w : UInt16) (s : Bytes) (d : Data) (k : Nat) (hO : hasOffset w = false)
-    (h : Spec.decodeData w s = some (.data d, k)) :
+    (h : Spec.decodeDataM w s = some (.data d, k)) :
     d.offset = none ∧ d.data ≠ [] ∧
       (d.length = none ∨ (d.length = some (UInt16.ofNat (dataImage d).length) ∧ (dataImage d).length ≤ 65535)) := by
-  unfold Spec.decodeData dataNeed at h
+  unfold Spec.decodeDataM dataNeed at h
   simp only [hO, Bool.false_eq_true, if_false, Nat.add_zero] at h
   generalize hneed : 4 + (if hasLength w = true then 2 else 0) + (if hasNsNr w = true then 4 else 0) = need at h
   by_cases c1 : s.length < need
